@@ -444,6 +444,13 @@ func (u *U) Bin(op token.Token, a, b *E, typ types.Type) *E {
 			return a
 		}
 	}
+	// sums and differences of integers: one normal form for every association
+	// (a-b-1, a-(b+1), (a-1)-b ... are the same expression)
+	if (op == token.ADD || op == token.SUB) && !isStringT(typ) && isIntLikeT(typ) {
+		if r := u.linNorm(op, a, b, typ); r != nil {
+			return r
+		}
+	}
 	// commutative ops: canonical operand order
 	switch op {
 	case token.AND, token.OR, token.XOR, token.MUL:
@@ -848,6 +855,23 @@ func (u *U) LibCall(name string, typ types.Type, args ...*E) *E {
 				return u.mk("call", "strings.Index", intT, args[0], u.Str(string(rune(c))))
 			}
 		}
+	case "strings.HasPrefix", "strings.HasSuffix":
+		// a one-byte pattern is a test of the first / last byte
+		if len(args) == 2 {
+			if p, ok := args[1].StrVal(); ok && len(p) == 1 && p[0] < 128 {
+				str := args[0]
+				var pos *E = u.Int(0)
+				if name == "strings.HasSuffix" {
+					pos = u.Bin(token.SUB, u.Len(str), u.Int(1), intT)
+				}
+				ch := u.mk("index", "", types.Typ[types.Uint8], str, pos)
+				nonEmpty := u.bdd.Not(u.ToBool(u.Eq(u.Len(str), u.Int(0))))
+				return u.Bool(u.bdd.And(nonEmpty, u.ToBool(u.Eq(ch, u.ConstVal(constant.MakeInt64(int64(p[0])), types.Typ[types.Uint8])))))
+			}
+			if p, ok := args[1].StrVal(); ok && p == "" {
+				return u.Bool(True)
+			}
+		}
 	case "strings.Cut":
 		if len(args) == 2 {
 			s, sep := args[0], args[1]
@@ -939,4 +963,107 @@ func (u *U) Slice(x, lo, hi, mx *E, typ types.Type) *E {
 		}
 	}
 	return u.mk("slice", "", typ, x, lo, hi, mx)
+}
+
+func isIntLikeT(t types.Type) bool {
+	if t == nil {
+		return false
+	}
+	b, ok := t.Underlying().(*types.Basic)
+	return ok && b.Info()&types.IsInteger != 0
+}
+
+// linNorm rebuilds a ± b as: (sum of the positive terms in key order) + c
+// - (negative terms in key order) - c', flattening nested sums of the same
+// type.  Two-term cases keep the shape they always had (c+x, x-c, x-y).
+func (u *U) linNorm(op token.Token, a, b *E, typ types.Type) *E {
+	coef := map[*E]int64{}
+	var order []*E
+	var k int64
+	okAll := true
+	var flat func(e *E, sign int64)
+	flat = func(e *E, sign int64) {
+		if v, ok := e.IntVal(); ok && e.IsConst() {
+			k += sign * v
+			return
+		}
+		if e.Op == "bin" && (e.Aux == "+" || e.Aux == "-") && e.Typ != nil && types.Identical(e.Typ, typ) {
+			flat(e.Args[0], sign)
+			if e.Aux == "+" {
+				flat(e.Args[1], sign)
+			} else {
+				flat(e.Args[1], -sign)
+			}
+			return
+		}
+		if e.Op == "ite" {
+			okAll = false
+		}
+		if _, seen := coef[e]; !seen {
+			order = append(order, e)
+		}
+		coef[e] += sign
+	}
+	flat(a, 1)
+	if op == token.ADD {
+		flat(b, 1)
+	} else {
+		flat(b, -1)
+	}
+	if !okAll {
+		return nil
+	}
+	if bt, ok := typ.Underlying().(*types.Basic); ok {
+		k = wrapInt64(k, bt)
+	}
+	sort.Slice(order, func(i, j int) bool { return order[i].key < order[j].key })
+	raw := func(op token.Token, x, y *E) *E {
+		if op == token.ADD && x.key > y.key {
+			x, y = y, x
+		}
+		return u.mk("bin", op.String(), typ, x, y)
+	}
+	term := func(e *E, c int64) *E {
+		if c == 1 {
+			return e
+		}
+		return u.Bin(token.MUL, u.ConstVal(constant.MakeInt64(c), typ), e, typ)
+	}
+	var acc *E
+	for _, e := range order {
+		if c := coef[e]; c > 0 {
+			t := term(e, c)
+			if acc == nil {
+				acc = t
+			} else {
+				acc = raw(token.ADD, acc, t)
+			}
+		}
+	}
+	if k > 0 || acc == nil {
+		kc := u.ConstVal(constant.MakeInt64(k), typ)
+		if acc == nil {
+			acc = kc
+		} else {
+			acc = raw(token.ADD, acc, kc)
+		}
+		k = 0
+	}
+	for _, e := range order {
+		if c := coef[e]; c < 0 {
+			acc = raw(token.SUB, acc, term(e, -c))
+		}
+	}
+	if k < 0 {
+		acc = raw(token.SUB, acc, u.ConstVal(constant.MakeInt64(-k), typ))
+	}
+	return acc
+}
+
+func wrapInt64(v int64, bt *types.Basic) int64 {
+	w := wrapInt(constant.MakeInt64(v), bt)
+	if x, ok := constant.Int64Val(w); ok {
+		return x
+	}
+	return v
 }
